@@ -266,10 +266,17 @@ def chunk_loops(repo, rep):
         lp = loops[0]
         t = unparse(lp.test).replace(" ", "")
         body = unparse(lp).replace(" ", "")
-        progress = "i0=i1" in body and "i1+=ntime" in body
+        lo_ = hi_ = None
+        for b_ in lp.body:
+            if isinstance(b_, ast.AugAssign) and isinstance(b_.op, ast.Add) and isinstance(b_.target, ast.Name) and unparse(b_.value) == "ntime":
+                hi_ = b_.target.id
+        for b_ in lp.body:
+            if isinstance(b_, ast.Assign) and isinstance(b_.targets[0], ast.Name) and isinstance(b_.value, ast.Name) and b_.value.id == hi_:
+                lo_ = b_.targets[0].id
+        progress = lo_ is not None and hi_ is not None
         # the loop must continue while unwritten records remain: a disjunct / the test `i0 < <size>`
         conds = [unparse(v).replace(" ", "") for v in (lp.test.values if isinstance(lp.test, ast.BoolOp) and isinstance(lp.test.op, ast.Or) else [lp.test])]
-        covers = any(c.startswith("i0<") and c.endswith(".time.size") for c in conds)
+        covers = any(c.startswith(f"{lo_}<") and c.endswith(".time.size") for c in conds)
         if progress and covers:
             rep.ok("R-C11-8", f"{fi.file}:{lp.lineno} {fi.short}", f"while {unparse(lp.test)}", "every record is written, including a trailing partial chunk; i0/i1 advance by ntime")
         elif not covers:
@@ -368,7 +375,15 @@ def octopus_pair(repo, rep):
 def netcdf_packing(repo, rep):
     fi = repo.func("wavespectra.output.netcdf.to_netcdf")
     t = unparse(fi.node).replace(" ", "")
-    if "other=self.copy(deep=True)" in t and "encoding[attrs.SPECNAME].update(" in t and "'_FillValue':-32768" in t:
+    X = E = None
+    for a_ in ast.walk(fi.node):
+        if isinstance(a_, ast.Assign) and isinstance(a_.targets[0], ast.Name) and unparse(a_.value).replace(" ", "") == "self.copy(deep=True)":
+            X = a_.targets[0].id
+    for c_ in ast.walk(fi.node):
+        if isinstance(c_, ast.Call) and isinstance(c_.func, ast.Attribute) and c_.func.attr == "to_netcdf" and unparse(c_.func.value) == X:
+            e_ = kwarg(c_, "encoding")
+            E = unparse(e_) if e_ is not None else None
+    if X and E and f"{E}[attrs.SPECNAME].update(" in t and "'_FillValue':-32768" in t:
         rep.ok("R-C11-7", f"{fi.file} to_netcdf", "deep copy; packing only on efth; _FillValue -32768", "negative fill value is outside the packed range of non-negative energy")
     else:
         rep.fail("R-C11-7", fi.file, fi.node.lineno, fi.qualname, "packing", "packing must apply to a deep copy, to the spectrum variable only, with a fill value outside the data range")
